@@ -110,12 +110,30 @@ pub fn replay(o: &Opts) {
         });
         pc::set_hooks(None, None);
         let g = sched.0.lock().unwrap();
+        // `mism`: the execution left the specification's behaviours (kind/order of critical sections, eviction order);
+        // `prop`: a condition of the property itself failed on the observed state (capacity, map/FIFO consistency, a plan
+        // cached under another symbol count, an encoder differing from the cache-less one, a panic)
         let mut mism: Vec<String> = vec![];
+        let mut prop: Vec<String> = vec![];
         if let Some(d) = &g.deviation {
             mism.push(d.clone());
         }
         if g.log.len() != steps.len() {
             mism.push(format!("{} critical sections executed, the specification has {}", g.log.len(), steps.len()));
+        }
+        for (i, lg) in g.log.iter().enumerate() {
+            let mut fifo_keys = lg.3.fifo.clone();
+            fifo_keys.sort();
+            let dup = fifo_keys.windows(2).any(|w| w[0] == w[1]);
+            if dup || lg.3.plans.iter().map(|p| p.0).collect::<Vec<_>>() != fifo_keys {
+                prop.push(format!("step {i}: map keys differ from the FIFO contents{}", if dup { " (a key is queued twice)" } else { "" }));
+            }
+            if lg.3.plans.iter().any(|p| p.0 != p.1) {
+                prop.push(format!("step {i}: a cached plan was generated for a different symbol count"));
+            }
+            if lg.3.plans.len() > pc::capacity() {
+                prop.push(format!("step {i}: cache holds {} plans, capacity {}", lg.3.plans.len(), pc::capacity()));
+            }
         }
         for (i, (st, lg)) in steps.iter().zip(g.log.iter()).enumerate() {
             let want_fifo: Vec<u16> = ((st["drop"].as_u64().unwrap() as u16 + 1)..=prefill)
@@ -128,31 +146,23 @@ pub fn replay(o: &Opts) {
                 mism.push(format!("step {i}: FIFO after the critical section differs (len {} vs {}, tail {:?} vs {:?})", lg.3.fifo.len(), want_fifo.len(),
                                   &lg.3.fifo[lg.3.fifo.len().saturating_sub(3)..], &want_fifo[want_fifo.len().saturating_sub(3)..]));
             }
-            let mut want_keys = want_fifo.clone();
-            want_keys.sort();
-            if lg.3.plans.iter().map(|p| p.0).collect::<Vec<_>>() != want_keys {
-                mism.push(format!("step {i}: map keys differ from the FIFO contents"));
-            }
-            if lg.3.plans.iter().any(|p| p.0 != p.1) {
-                mism.push(format!("step {i}: a cached plan was generated for a different symbol count"));
-            }
-            if lg.3.plans.len() > pc::capacity() {
-                mism.push(format!("step {i}: cache holds {} plans, capacity {}", lg.3.plans.len(), pc::capacity()));
-            }
         }
         for (t, k, r) in &results {
             match r {
                 Ok(enc) => {
                     if enc != &reference[k] {
-                        mism.push(format!("thread {t}: encoder for {k} symbols differs from the one built without the cache"));
+                        prop.push(format!("thread {t}: encoder for {k} symbols differs from the one built without the cache"));
                     }
                 }
-                Err(m) => mism.push(format!("thread {t}: {m}")),
+                Err(m) => prop.push(format!("thread {t}: {m}")),
             }
         }
-        if !mism.is_empty() {
+        if !mism.is_empty() || !prop.is_empty() {
             bad += 1;
-            out.emit(json!({"case": c, "got": {"log": g.log.iter().map(|l| json!([l.0, kind_name(l.1), l.2, l.3.fifo.len()])).collect::<Vec<_>>()}, "mismatch": mism}));
+            let mut all = prop.clone();
+            all.extend(mism.iter().cloned());
+            out.emit(json!({"case": c, "got": {"log": g.log.iter().map(|l| json!([l.0, kind_name(l.1), l.2, l.3.fifo.len()])).collect::<Vec<_>>()},
+                            "mismatch": all, "property_level": prop, "model_level": mism}));
         }
     }
     out.finish();
